@@ -517,7 +517,8 @@ void World::after_step(const StepEffect& e)
     uint64_t h = cur.hash();
     state_hashes.insert(h);
     log.u64(h);
-    if (check(CK_AUDIT) && !faulted && !stop)
+    // (also when this very step made a live track unobservable: the raw bytes then tell what was stored)
+    if (check(CK_AUDIT) && !faulted)
         audit();
 }
 
